@@ -137,10 +137,43 @@ def rule_timer_cancel(ctx, res):
                     return ('is_it', bool(truth))
         if rel == 'bool' and term_int(a) is not None:
             return None
+        if rel == 'bool' and isinstance(a, tuple) and a[0] == 'call' and a[1].split('::')[-1] in ('is_some', 'is_none') and truth is not None and took_current(a[2][0]):
+            # `self.current.take_if(|c| c.key() == timeout).is_some()`: Some exactly when something is armed and it is t; the entry is
+            # then already taken out (take_if leaves None behind), otherwise `current` is untouched
+            return ('took', (a[1].split('::')[-1] == 'is_some') == bool(truth))
         raise Lost('Timer::cancel: unrecognised condition %s %s' % (rel, fmt(a)[:80]))
+
+    def took_current(t):
+        t = strip_transparent(t)
+        if not (isinstance(t, tuple) and t[0] == 'call' and t[1].split('::')[-1] == 'take_if' and 'option' in t[1].lower() and len(t[2]) == 2
+                and field_chain(strip_transparent(t[2][0])) == ['current'] and is_param(root_of(strip_transparent(t[2][0])), 'self')):
+            return False
+        cl = strip_transparent(t[2][1])
+        if not (isinstance(cl, tuple) and len(cl) == 3 and cl[0] == 'closure' and ctx.f.body(cl[1]) is not None):
+            return False
+        _cb, cs = lib.closure_sym(ctx, cl, res)
+        cps = cs.complete_paths()
+        if len(cs.paths) != 1 or len(cps) != 1 or cps[0].conds or any(e[0] == 'write' for e in cps[0].effects):
+            return False
+        r = strip_transparent(cps[0].ret)
+        if not (isinstance(r, tuple) and r[0] == 'call' and lib.cmp_kind_of_call(r[1]) == 'eq'):
+            return False
+        for x, y in ((r[2][0], r[2][1]), (r[2][1], r[2][0])):
+            x, y = strip_transparent(x), strip_transparent(y)
+            if isinstance(x, tuple) and x[0] == 'call' and x[1].split('::')[-1] == 'key' and is_param(root_of(strip_transparent(x[2][0]))) \
+                    and root_of(strip_transparent(x[2][0]))[1] == 2 and is_param(y, 'timeout'):
+                return True
+        return False
 
     def outcome(p):
         cleared = any(e[0] == 'write' and field_chain(strip_transparent(e[1])) == ['current'] and agg_variant(e[2]) == 'None' for e in p.effects)
+        for c in p.conds:
+            lit = literal(c)
+            try:
+                if classify(lit, c) == ('took', True):
+                    cleared = True
+            except Lost:
+                pass
         rem = [e for e in p.effects if e[0] == 'call' and e[1] and e[1].split('::')[-1] == 'remove' and field_chain(strip_transparent(e[2][0])) == ['queue'] and is_param(strip_transparent(e[2][1]), 'timeout')]
         r = p.ret
         if cleared and not rem and term_int(r) == 1:
@@ -151,8 +184,8 @@ def rule_timer_cancel(ctx, res):
 
     try:
         tab = Table.build(s.complete_paths(), classify, outcome)
-        bad, n = tab.compare({'armed': BOOL, 'is_it': BOOL}, lambda v: 'armed entry dropped, true' if (v['armed'] and v['is_it']) else 'removed from the queue, found?',
-                             consistent=lambda v: v['armed'] or not v['is_it'])
+        bad, n = tab.compare({'armed': BOOL, 'is_it': BOOL, 'took': BOOL}, lambda v: 'armed entry dropped, true' if (v['armed'] and v['is_it']) else 'removed from the queue, found?',
+                             consistent=lambda v: (v['armed'] or not v['is_it']) and v['took'] == (v['armed'] and v['is_it']))
         res.check(not bad, 'TABLE', b.path, 'cancel(t): t armed -> the armed entry is dropped, true; otherwise (nothing armed, or something else armed) -> t is removed from the queue, result = whether it was there',
                   detail='; '.join('%s -> got %s want %s' % x for x in bad[:3]), key='timer-cancel')
     except Lost as e:
